@@ -193,7 +193,7 @@ theorem sideField_declared (inp : Input) (side : Pkg) (hw : wfSelectors (inp.tre
     have hfl := foldl_aor_flags _ [] (walkTop_flags (inp.tree side)) (by simp) g (flatten_sub _ hg')
     obtain ⟨l, hl, e⟩ := flatten_names _ g hg'
     simp only [wfSelectors, List.all_eq_true, Bool.and_eq_true] at hw
-    exact ⟨hfl.1, hfl.2, e ▸ (hw l hl).1.1⟩
+    exact ⟨hfl.1, hfl.2, e ▸ (hw l hl).1⟩
   cases hn : inp.isNew side with
   | false =>
     simp only [hn, Bool.false_eq_true, ↓reduceIte] at hf
@@ -227,7 +227,7 @@ theorem sideField_write_declared (inp : Input) (side : Pkg) (hw : wfSelectors (i
     have hfl := foldl_aor_flags _ [] (walkTop_flags (inp.tree side)) (by simp) g (flatten_sub _ hg')
     obtain ⟨l, hl, e⟩ := flatten_names _ g hg'
     simp only [wfSelectors, List.all_eq_true, Bool.and_eq_true] at hw
-    exact ⟨hfl.2, e ▸ (hw l hl).1.1⟩
+    exact ⟨hfl.2, e ▸ (hw l hl).1⟩
   cases hn : inp.isNew side with
   | false =>
     simp only [hn, Bool.false_eq_true, ↓reduceIte] at hf
